@@ -2,9 +2,9 @@ package main
 
 import (
 	"fmt"
-	"regexp"
 	"go/constant"
 	"go/types"
+	"regexp"
 	"sort"
 	"strings"
 )
@@ -12,11 +12,11 @@ import (
 // VC collects the SMT-LIB text generated for one verification unit (a function under contract,
 // a call-site sweep of one function, or a lemma).
 type VC struct {
-	p        *Prog
-	decls    []string
-	asserts  []string
-	n        int
-	declared map[string]bool
+	p         *Prog
+	decls     []string
+	asserts   []string
+	n         int
+	declared  map[string]bool
 	declared2 map[string]string
 
 	structSort map[string]string // typeKey -> sort name
@@ -30,8 +30,8 @@ type VC struct {
 	memSorts   map[string]string // SMT memory symbol base -> sort
 	ufuns      map[string]bool
 
-	obls []*Obl
-	qdefs []qdef
+	obls       []*Obl
+	qdefs      []qdef
 	sliceCache []sliceItem
 
 	assumptions map[string]bool // abstraction notes collected while generating
@@ -40,17 +40,17 @@ type VC struct {
 
 // Obl is one proof obligation: reach ∧ ¬goal must be unsat.
 type Obl struct {
-	Name    string
-	Kind    string
-	Reach   string
-	Goal    string
-	Pos     string
-	Text    string // source text of the clause
+	Name     string
+	Kind     string
+	Reach    string
+	Goal     string
+	Pos      string
+	Text     string // source text of the clause
 	NoAxioms bool
 	NoQuant  bool
-	MustSat bool   // vacuity probe: reach must be satisfiable (Goal ignored)
-	Fn      string
-	Extra   []string // extra assertions local to this obligation
+	MustSat  bool // vacuity probe: reach must be satisfiable (Goal ignored)
+	Fn       string
+	Extra    []string // extra assertions local to this obligation
 
 	Result  string
 	Solver  string
@@ -58,6 +58,7 @@ type Obl struct {
 	Model   string
 	Output  string
 	SMTSize int
+	Brittle []string // thorough tier: seeds under which the deciding query was not re-proved in time
 }
 
 func newVC(p *Prog) *VC {
